@@ -14,8 +14,12 @@ defaulted; unknown / malformed command → `bad-op`.
   encode <meta>                → tokens t,t,…        (postcard token stream of the metadata)
   decode <digestLen> t,t,…     → meta-ok <re-encoded tokens> | decode-fail
   sig <const|public|alu> d=<D> lanes=<l> k=<k>   → sig main=<w> prep=<w>
+  manifest d=<D> red=<base|bin:<W>|quintic> av=<0|1> np=<-|name:variant:pvlen;…> | <meta>
+      `VerifierManifest::matches` of that manifest on a proof with that metadata
+      → matches <ok|err:<ProofMetadataError variant>[@<index>]>
 -/
 import P3R.Model.Metadata
+import P3R.Model.Manifest
 
 open P3R.Metadata
 
@@ -159,6 +163,46 @@ def runSig (toks : List String) : Option String := do
     pure s!"sig main={a.mainW} prep={a.prepW}"
   | _ => none
 
+def parseExpEntry (s : String) : Option ExpEntry :=
+  match s.splitOn ":" with
+  | [nm, v, l] => do let v ← v.toNat?; let l ← l.toNat?; pure ⟨nameOf nm, v, l⟩
+  | _ => none
+
+def parseRed (s : String) : Option Red :=
+  match s.splitOn ":" with
+  | ["base"] => some .base
+  | ["quintic"] => some .quintic
+  | ["bin", w] => w.toNat?.map .binomial
+  | _ => none
+
+def parseManifest (part : String) : Option Manifest := do
+  let t := part.trim.splitOn " "
+  let d ← (← kv t "d").toNat?
+  let red ← parseRed (← kv t "red")
+  let av ← (← kv t "av").toNat?
+  let np ← semis parseExpEntry (← kv t "np")
+  pure ⟨d, red, av, np⟩
+
+def manErrStr : ManErr → String
+  | .extDegree => "ExtDegreeMismatch"
+  | .binomialW => "BinomialWMismatch"
+  | .quintic => "QuinticReductionMismatch"
+  | .aluVariant => "AluVariantMismatch"
+  | .npoCount => "NpoCountMismatch"
+  | .npoOp i => s!"NpoOpTypeMismatch@{i}"
+  | .npoVariant i => s!"NpoAirVariantMismatch@{i}"
+  | .npoPvLen i => s!"NpoPublicValueLenMismatch@{i}"
+
+def runManifest (rest : String) : Option String := do
+  match rest.splitOn " | " with
+  | [ms, m] =>
+    let man ← parseManifest ms
+    let mt ← parseMeta m
+    match manifestMatches man mt with
+    | .ok _ => pure "matches ok"
+    | .error e => pure s!"matches err:{manErrStr e}"
+  | _ => none
+
 def handle (line : String) : String :=
   let line := line.trim
   match line.splitOn " " with
@@ -175,6 +219,7 @@ def handle (line : String) : String :=
       | _ => "decode-fail"
     | _, _ => "bad-op"
   | "sig" :: rest => (runSig rest).getD "bad-op"
+  | "manifest" :: _ => (runManifest (line.drop 9).toString).getD "bad-op"
   | _ => "bad-op"
 
 partial def loop (h : IO.FS.Stream) (out : IO.FS.Stream) : IO Unit := do
